@@ -642,11 +642,11 @@ class ServerWorld:
         elif op == 'remove':
             await s.remove(p)
         elif op == 'readlink':
-            await s.readlink(p)
+            self.reply = await s.readlink(p)
         elif op == 'realpath':
-            await s.realpath(p)
+            self.reply = await s.realpath(p)
         elif op == 'opendir':
-            await s.listdir(p)
+            self.reply = await s.listdir(p)
         elif op == 'rename':
             await s.rename(p, q)
         elif op == 'posix_rename':
@@ -661,6 +661,7 @@ class ServerWorld:
     def request(self, op, p, q=b''):
         """Send one real SFTP request; returns ('ok'|'err', detail, events)"""
         mon = self.mon
+        self.reply = None
         mon.start(self.area.top, self.noise_prefixes, self.area.root)
         try:
             try:
@@ -675,6 +676,15 @@ class ServerWorld:
         events = mon.take()
         if detail.startswith('Deadlock') or self.conn.is_closed():
             self._reconnect()
+        # disclosure: a readlink / realpath reply is a path in the client's
+        # view; a real path of this machine in it tells the client about
+        # things outside the root
+        if op in ('readlink', 'realpath') and isinstance(self.reply, bytes):
+            text = os.fsdecode(self.reply)
+            if os.path.dirname(self.area.top) in text:
+                ev = Event('reply', text, False, text, None, False, None)
+                ev.culprit = 'reply'
+                events.append(ev)
         return st, detail, events
 
     def _reconnect(self):
@@ -1027,72 +1037,137 @@ def _shape(tree):
 
 
 class LinkBook:
-    """What the harness saw of each symbolic link below the root (by inode):
-    where it first appeared and whether it already led outside then."""
+    """History of every symbolic link below the root as the harness saw it
+    (links are identified by inode; an instance by (inode, location)):
+
+      first[ino]      how it was created: location, whether it already led
+                      outside, the stored target, how the stored target relates
+                      to the requested one (creation class)
+      inst[(ino,loc)] when / by which request this instance appeared at this
+                      location, and by which request it first resolved
+                      outside the root
+
+    classify() turns an escaping system call into a *cause*: (kind, history)
+    where history is the abstract shape of the requests that matter - the
+    creation of the blamed link and the request that relocated it or changed
+    what its target means.  The history is the violation's signature."""
 
     def __init__(self, world):
         self.world = world
         self.first = {}
+        self.inst = {}
 
-    def update(self, tree, req=None):
-        root = self.world.area.root
-        top = self.world.area.top
+    def _outward(self, loc):
+        real = self.world.area.top + '/' + '/'.join(loc[1:])
+        with self.world.mon.quiet():
+            res, _err = kwalk(real, True)
+        return not under(self.world.area.root, res)
+
+    def update(self, before, tree, req=None, events=()):
+        """before / tree: snapshots around the request `req`."""
+        op = req[0] if req else 'init'
+        # what did the request move / create?  (first path argument of the
+        # relocating system call, as resolved before the call)
+        moved_kind = None
+        src = None
+        for e in events:
+            if e.name in ('os.rename', 'os.link'):
+                src = self.world.area.to_model(e.loc)
+                moved_kind = (before.get(src) or ('?',))[0] if src else '?'
+                break
+        if op == 'symlink':
+            moved_kind = 'link'
+        elif op == 'mkdir':
+            moved_kind = 'dir'
+        elif op in ('open_w', 'open_x', 'open_a'):
+            moved_kind = 'file'
+        elif op in ('remove', 'rmdir'):
+            moved_kind = 'entry'
+        by = f'{op} {moved_kind or "-"}'
         for loc, (kind, tgt, ino) in tree.items():
-            if kind != 'link' or loc[:2] != ('T', 'R') or ino in self.first:
+            if kind != 'link' or loc[:2] != ('T', 'R'):
                 continue
-            real = top + '/' + '/'.join(loc[1:])
-            with self.world.mon.quiet():
-                res, _err = kwalk(real, True)
-            # "plain": created by a symlink request whose new path is
-            # already normalised and names exactly the place it landed in
-            plain = False
-            if req is not None and req[0] == 'symlink':
-                q = req[2].decode('utf-8', 'backslashreplace')
-                norm = posixpath.normpath('/' + q.lstrip('/'))
-                plain = (q in (norm, norm[1:]) and
-                         ('T', 'R') + tuple(norm[1:].split('/')) == loc)
-            self.first[ino] = (loc, not under(root, res), tgt, plain)
+            out = self._outward(loc)
+            if ino not in self.first:
+                plain = False
+                creation = 'unknown'
+                if req is not None and req[0] == 'symlink':
+                    want = req[1].decode('utf-8', 'backslashreplace')
+                    q = req[2].decode('utf-8', 'backslashreplace')
+                    norm = posixpath.normpath('/' + q.lstrip('/'))
+                    plain = (q in (norm, norm[1:]) and
+                             ('T', 'R') + tuple(norm[1:].split('/')) == loc)
+                    creation = ('absolute' if want.startswith('/') else
+                                'relative-kept' if tgt == want else
+                                'relative-rewritten')
+                self.first[ino] = dict(loc=loc, outward=out, target=tgt,
+                                       plain=plain, creation=creation)
+            key = (ino, loc)
+            if key not in self.inst:
+                obj = 'link' if src is not None and \
+                    self._prev_loc(before, ino, src) == src else 'directory'
+                self.inst[key] = dict(by=f'{op} {obj}' if op in (
+                    'rename', 'posix_rename', 'link') else by, turned=None)
+            if out and self.inst[key]['turned'] is None:
+                self.inst[key]['turned'] = by
+            elif not out:
+                self.inst[key]['turned'] = None
+
+    @staticmethod
+    def _prev_loc(before, ino, src):
+        """location the inode had before, if it equals the moved entry"""
+        if src is not None and src in before and before[src][2] == ino:
+            return src
+        return None
 
     def classify(self, ev):
-        """Why did this system call end up outside the root?"""
+        """Why did this system call end up outside the root?
+        -> (kind, history tuple)"""
+        if ev.culprit == 'reply':
+            return 'disclosure', ('reply names a real path',)
         if ev.culprit is None:
-            return 'map-path'       # the path string itself leads outside
+            return 'map-path', ()   # the path string itself leads outside
         link_path, ino = ev.culprit
         loc = self.world.area.to_model(link_path)
         first = self.first.get(ino)
         if first is None or loc is None or loc[:2] != ('T', 'R'):
-            return 'symlink-unknown-origin'
-        if first[1]:
-            if first[2].startswith('/'):
-                return 'symlink-absolute-outward'
-            if first[3]:
-                return 'symlink-outward-at-creation-plain'
-            return 'symlink-outward-at-creation'
-        if first[0] != loc:
-            return 'symlink-moved'
-        return 'symlink-context-changed'
+            return 'symlink-unknown-origin', ()
+        made = 'symlink ' + first['creation']
+        if first['outward']:
+            if first['target'].startswith('/'):
+                return 'symlink-absolute-outward', (made,)
+            if first['plain']:
+                return 'symlink-outward-at-creation-plain', (made,)
+            return 'symlink-outward-at-creation', (made,)
+        inst = self.inst.get((ino, loc), {})
+        if first['loc'] != loc:
+            return 'symlink-moved', (made, inst.get('by', '?'))
+        return 'symlink-context-changed', (made, inst.get('turned') or '?')
 
 
-def run_sequence(world, init_tree, reqs, predicted=None):
-    """Replay a request sequence.  reqs: [(op, p bytes, q bytes)];
-    predicted: optional [(st, esc, model tree)] per request.
-    Returns dict(steps=[...], escapes=[(idx, kind, events)], diverged=str|None,
-    outside=[...])."""
+def run_sequence(world, init_tree, reqs, predicted=None, stop=True):
+    """Replay a request sequence with the monitor evaluated after every
+    step.  reqs: [(op, p bytes, q bytes)]; predicted: optional
+    [(st, esc, model tree)] per request.
+    Returns dict(steps=[...], escapes=[(idx, causes, events)],
+    diverged=str|None, outside=[...]); causes = [(kind, history)]."""
     world.reset(init_tree)
     book = LinkBook(world)
+    tree = world.tree()
+    book.update({}, tree)
     steps = []
     escapes = []
     diverged = None
     for i, (op, p, q) in enumerate(reqs):
         st, detail, events = world.request(op, p, q)
         bad = world.judge(events)
-        kinds = sorted(set(book.classify(e) for e in bad))
-        tree = world.tree()
-        book.update(tree, (op, p, q))
+        causes = sorted(set(book.classify(e) for e in bad))
+        before, tree = tree, world.tree()
+        book.update(before, tree, (op, p, q), events)
         steps.append(dict(req=req_str((op, p, q)), st=st, detail=detail,
                           esc=bool(bad)))
         if bad:
-            escapes.append((i, kinds, [e.as_list() for e in bad[:4]]))
+            escapes.append((i, causes, [e.as_list() for e in bad[:4]]))
         if predicted is not None and diverged is None and i < len(predicted):
             pst, pesc, ptree = predicted[i]
             if bool(bad) != pesc:
@@ -1100,28 +1175,80 @@ def run_sequence(world, init_tree, reqs, predicted=None):
                             f'{bool(bad)} predicted={pesc}')
             elif bad:
                 pass        # outside the root the model is not meant to be exact
-            elif op not in STATUS_FREE_OPS and st != pst:
+            elif op not in STATUS_FREE_OPS and pst is not None and st != pst:
                 diverged = (f'step {i} {req_str((op, p, q))}: status observed='
                             f'{st} ({detail}) predicted={pst}')
-            elif not any(e.blocked for e in events):
+            elif ptree is not None and not any(e.blocked for e in events):
                 a, b = _shape(tree), _shape(ptree)
                 if a != b:
                     diverged = (f'step {i} {req_str((op, p, q))}: tree observed='
                                 f'{a} predicted={b}')
-        if bad:
+        if bad and stop:
             break       # the model stops at the first escape as well
     outside = outside_changes(world.tree(), ('T', 'R'))
     return dict(steps=steps, escapes=escapes, diverged=diverged,
-                outside=outside)
+                outside=outside, book=book, tree=tree)
 
 
-def minimise(world, init_tree, reqs, kind):
+PROBE_OPS = ['lstat', 'stat', 'readlink', 'realpath', 'open_r', 'opendir',
+             'setstat', 'open_w', 'remove', 'mkdir', 'rmdir']
+
+
+def run_script(world, init_tree, script, final_tree, escset, probes=None):
+    """One generated script: replay it (monitor after every step, final tree
+    compared with the model's), then the probe battery: every probe operation
+    through every symbolic link below the root (the link itself and one name
+    beyond it).  escset: {(op, path string)} the model expects to escape.
+    Returns dict(build=<run_sequence result>, uses=[(op, path, causes,
+    events)], diverged=[...], nprobes=int)."""
+    pred = [(None, False, None)] * (len(script) - 1) + \
+        [(None, False, final_tree)] if script else []
+    build = run_sequence(world, init_tree, script, pred or None)
+    out = dict(build=build, uses=[], diverged=[], nprobes=0)
+    if build['diverged']:
+        out['diverged'].append(build['diverged'])
+    if build['escapes']:
+        return out
+    tree = build['tree']
+    links = sorted(loc for loc, v in tree.items()
+                   if v[0] == 'link' and loc[:2] == ('T', 'R'))
+    paths = []
+    for loc in links:
+        cp = '/'.join(loc[2:])
+        paths += [cp, cp + '/a']
+    book = build['book']
+    dirty = False
+    base = _shape(tree)
+    for path in paths:
+        for op in (probes or PROBE_OPS):
+            if dirty:
+                again = run_sequence(world, init_tree, script)
+                book = again['book']
+                dirty = False
+            st, _detail, events = world.request(op, path.encode(), b'')
+            out['nprobes'] += 1
+            bad = world.judge(events)
+            want = (op, path) in escset
+            if bad:
+                causes = sorted(set(book.classify(e) for e in bad))
+                out['uses'].append((op, path, causes,
+                                    [e.as_list() for e in bad[:3]]))
+            if bool(bad) != want:
+                out['diverged'].append(
+                    f'probe {op} {path!r}: escape observed={bool(bad)} '
+                    f'predicted={want}')
+            if op in MUTATING_OPS and (st == 'ok' or bad):
+                dirty = _shape(world.tree()) != base or bool(bad)
+    return out
+
+
+def minimise(world, init_tree, reqs, cause):
     """Greedy: drop requests (never the last) while the last request still
-    escapes with the same kind."""
+    escapes for the same cause (kind, history)."""
     def escapes(seq):
         r = run_sequence(world, init_tree, seq)
         return bool(r['escapes']) and r['escapes'][0][0] == len(seq) - 1 and \
-            kind in r['escapes'][0][1]
+            cause in r['escapes'][0][1]
     seq = list(reqs)
     i = 0
     while i < len(seq) - 1:
